@@ -27,6 +27,17 @@ CLAIMS = {
         "CPython ast docstrings describe the grammar; ast.iter_child_nodes yields every child; engine flow/resolver",
         "DESIGN.md section 4 C02",
     ),
+    "C15": (
+        "Decides purity structurally (for all histories, interleavings and hash seeds rather than sampled ones): the graph is frozen after "
+        "construction and graph mutators are reachable only from the constructor; nothing reachable from an evaluation entry point writes to "
+        "long-lived objects (receiver, arguments, objects derived from them) - the one reviewed exception, the alias rewrite of "
+        "Rule._configuration, is checked to be idempotent; no set-iteration order reaches text without sorted and no container is grown and "
+        "shrunk inside one loop over a set; no function writes class-level/module-level state and nothing is memoised. Does NOT decide "
+        "seed/ordering effects inside networkx/matplotlib.",
+        "effect analysis over the call graph (freshness, mutated-receiver/parameter summaries) + tag-flow for unordered collections + dominance",
+        "networkx.freeze makes mutators raise; engine resolver/call graph (CHA with name-based fallback), freshness analysis",
+        "DESIGN.md section 4 C15",
+    ),
 }
 
 NOT_BUILT_REASON = "static check not built yet in this session (planned rules: DESIGN.md section 4); no claim is made"
